@@ -131,7 +131,8 @@ JudgeCall(e) ==
       foreign == {a \in AccNames \ v.match : e.acc[a].ok}
       wf == IsMeta(e.bytes) IN
   [ok |-> IF ~v.judged THEN TRUE
-          \* e.stable: every accessor answered the same when its output variables held other values before the call
+          \* e.stable: every accessor answered the same when its output variables held other values before the call, and
+          \* (accessors with several outputs) when any subset of the outputs was not asked for (nil)
           ELSE v.dom /\ e.panic = "" /\ v.bytesOk /\ wf /\ v.accOk /\ foreign = {} /\ e.stable,
    info |-> [id |-> e.id, ev |-> "call", ctor |-> e.ctor, name |-> e.name, genbug |-> ~v.dom, panic |-> e.panic,
              bytesOk |-> v.bytesOk, wellFormed |-> wf, accOk |-> v.accOk, foreign |-> foreign, stable |-> e.stable,
